@@ -31,7 +31,8 @@ Record cfg := mkCfg {
   c_sep : bool;              (* false: --no-separator *)
   c_header : list str;       (* --header, one entry per line *)
   c_hlines : list str;       (* the first --header-lines input lines *)
-  c_multi : Z                (* 0: no --multi; MAX_MULTI: unlimited; k: --multi=k *)
+  c_multi : Z;               (* 0: no --multi; MAX_MULTI: unlimited; k: --multi=k *)
+  c_tabstop : nat            (* --tabstop (>= 1; 8 by default) *)
 }.
 
 (* what is to be shown *)
@@ -51,9 +52,33 @@ Definition pad (w : nat) (s : str) : row := s ++ repeat SP (w - length s).
 
 (* the ellipsis shrinks in very narrow windows *)
 Definition ell (maxw : nat) : str := repeat DOT (Nat.min 2 (maxw / 2)).
-(* complete when it fits, otherwise a prefix followed by the ellipsis, never wider than maxw *)
+(* text without tabs: complete when it fits, otherwise a prefix followed by the ellipsis, never wider than maxw *)
 Definition trunc (maxw : nat) (s : str) : str :=
   if length s <=? maxw then s else firstn (maxw - length (ell maxw)) s ++ ell maxw.
+
+(* TAB advances to the next multiple of the tabstop; the column counts from the start of the text *)
+Definition TAB : Z := 9%Z.
+Definition tab_width (ts col : nat) : nat := ts - col mod ts.
+Fixpoint expand_from (ts col : nat) (s : str) : str :=
+  match s with
+  | [] => []
+  | x :: r => if (x =? TAB)%Z then repeat SP (tab_width ts col) ++ expand_from ts (col + tab_width ts col) r
+              else x :: expand_from ts (S col) r
+  end.
+Definition expand (ts : nat) (s : str) : str := expand_from ts 0 s.
+(* the longest prefix (in characters) whose expansion is at most `limit` columns wide *)
+Fixpoint take_from (ts col limit : nat) (s : str) : str :=
+  match s with
+  | [] => []
+  | x :: r => let w := if (x =? TAB)%Z then tab_width ts col else 1 in
+              if col + w <=? limit then x :: take_from ts (col + w) limit r else []
+  end.
+Definition take_width (ts limit : nat) (s : str) : str := take_from ts 0 limit s.
+(* what a row shows of a text: its tab-expanded form when that fits, else the expansion of the longest prefix
+   that leaves room for the ellipsis, followed by the ellipsis (a tab is never shown in part) *)
+Definition show (ts maxw : nat) (s : str) : str :=
+  if length (expand ts s) <=? maxw then expand ts s
+  else expand ts (take_width ts (maxw - length (ell maxw)) s) ++ ell maxw.
 
 (* decimal numerals *)
 Fixpoint dec_aux (fuel : nat) (z : Z) (acc : str) : str :=
@@ -127,10 +152,10 @@ Definition info_row_text (c : cfg) (v : view) : row :=
   | IHidden | IInlineRight => pad (c_w c) (repeat DASH (c_w c - 1))
   | IInline => blank (c_w c)
   end.
-Definition header_row_text (c : cfg) (h : str) : row := pad (c_w c) ([SP; SP] ++ trunc (c_w c - 3) h).
+Definition header_row_text (c : cfg) (h : str) : row := pad (c_w c) ([SP; SP] ++ show (c_tabstop c) (c_w c - 3) h).
 Definition item_row_text (c : cfg) (v : view) (pos : nat) (m : nat * str) : row :=
   pad (c_w c) ([if Nat.eqb pos (v_cy v) then GT else SP;
-                if memb (fst m) (v_sel v) then GT else SP] ++ trunc (c_w c - 3) (snd m)).
+                if memb (fst m) (v_sel v) then GT else SP] ++ show (c_tabstop c) (c_w c - 3) (snd m)).
 (* list slot i shows result number offset+i, or nothing when the list is shorter *)
 Definition list_slot_text (c : cfg) (v : view) (i : nat) : row :=
   match nth_error (v_matches v) (v_off v + i) with
@@ -168,6 +193,7 @@ Definition row_at (scr : list row) (r : nat) : row := nth r scr [].
 
 (* the window is big enough for prompt, info and header, the prompt fits *)
 Definition cfg_ok (c : cfg) : Prop := 4 <= c_w c /\ prompt_lines c + nheader c <= c_h c.
+(* (the tabstop only matters for texts with tabs; fzf accepts positive values only) *)
 Definition view_ok (c : cfg) (v : view) : Prop :=
   length (v_prompt v) + 2 <= c_w c /\
   match c_info c with
@@ -242,3 +268,95 @@ Definition check_faithful (c : cfg) (v : view) (scr : list row) : list Z :=
   chk_headers 1000%Z (header_row c) c scr 0 (c_header c) ++
   chk_headers 2000%Z (hline_row c) c scr 0 (c_hlines c) ++
   chk_rows (c_w c) 0 scr.
+
+(* ---------- items that take several rows: --wrap and multi-line (--read0) items ----------
+   Spec only (RenderModel does not cover them): what the list area must show for SOME scroll offset.
+     wrap        a line is cut into chunks of W-3 columns (continuations: W-3 minus the wrap sign, which precedes them)
+     multi-line  one row per line of the item (cut with the ellipsis unless --wrap)
+   Every row of the current item carries the pointer; a selected item that takes one row carries the marker, one that
+   takes (or would take) several carries the top / middle / bottom markers.  An item that does not fit the rest of
+   the list area shows its first rows (its LAST rows in the default layout, unless it is the current item).
+   Rows of an item read downwards in every layout. *)
+Record mrows := mkMR { mr_wrap : bool; mr_multiline : bool; mr_sign : str; mr_marks : list Z (* top, middle, bottom *) }.
+Definition NLc : Z := 10%Z.
+Fixpoint lines_of_aux (cur : str) (s : str) : list str :=
+  match s with
+  | [] => [rev cur]
+  | x :: r => if (x =? NLc)%Z then rev cur :: lines_of_aux [] r else lines_of_aux (x :: cur) r
+  end.
+Definition lines_of (s : str) : list str := lines_of_aux [] s.
+
+Fixpoint wrap_line (fuel ts cols wsw : nat) (first : bool) (line : str) : list (bool * str) :=
+  match fuel with
+  | O => []
+  | S f =>
+      let lim := if first then cols else cols - wsw in
+      let pre := take_width ts lim line in
+      if length pre =? length line then [(negb first, line)]
+      else let k := Nat.max 1 (length pre) in
+           (negb first, firstn k line) :: wrap_line f ts cols wsw false (skipn k line)
+  end.
+
+(* rows of an item: (continuation of a wrapped line?, characters) *)
+Definition item_lines (c : cfg) (m : mrows) (text : str) : list (bool * str) :=
+  let ls := if mr_multiline m then lines_of text else [text] in
+  if mr_wrap m then
+    concat (map (fun l => wrap_line (S (length l)) (c_tabstop c) (Nat.max (c_w c - 3) 1) (length (mr_sign m)) true l) ls)
+  else map (fun l => (false, l)) ls.
+
+Definition row_body (c : cfg) (m : mrows) (r : bool * str) : str :=
+  if mr_wrap m then (if fst r then mr_sign m else []) ++ expand (c_tabstop c) (snd r)
+  else show (c_tabstop c) (c_w c - 3) (snd r).
+
+Definition mark_of (m : mrows) (k : nat) : Z := nth k (mr_marks m) GT.
+Definition row_mark (m : mrows) (sel overflow topcut : bool) (nvis k : nat) : Z :=
+  if negb sel then SP
+  else if nvis =? 1 then (if negb overflow then GT else if topcut then mark_of m 2 else mark_of m 0)
+  else if k =? 0 then (if topcut then mark_of m 1 else mark_of m 0)
+  else if k =? nvis - 1 then (if topcut || negb overflow then mark_of m 2 else mark_of m 1)
+  else mark_of m 1.
+
+Fixpoint mapi_from {A B} (k : nat) (f : nat -> A -> B) (l : list A) : list B :=
+  match l with [] => [] | x :: r => f k x :: mapi_from (S k) f r end.
+
+Definition is_default (c : cfg) : bool := match c_layout c with LDefault => true | _ => false end.
+
+(* the rows one item contributes when `room` lines of the list area are left, in the order of the logical lines *)
+Definition item_block (c : cfg) (m : mrows) (v : view) (pos : nat) (it : nat * str) (room : nat) : list row :=
+  let all := item_lines c m (snd it) in
+  let n := length all in
+  let cur := Nat.eqb pos (v_cy v) in
+  let sel := memb (fst it) (v_sel v) in
+  let overflow := room <? n in
+  let topcut := overflow && is_default c && negb cur in
+  let vis := if overflow then (if topcut then skipn (n - room) all else firstn room all) else all in
+  let nvis := length vis in
+  let rows := mapi_from 0 (fun k r => pad (c_w c) ([if cur then GT else SP; row_mark m sel overflow topcut nvis k] ++ row_body c m r)) vis in
+  if is_default c then rev rows else rows.
+
+Fixpoint area_from (c : cfg) (m : mrows) (v : view) (pos : nat) (ms : list (nat * str)) (room : nat) : list row :=
+  match room with
+  | O => []
+  | _ =>
+      match ms with
+      | [] => repeat (blank (c_w c)) room
+      | it :: r => let b := item_block c m v pos it room in b ++ area_from c m v (S pos) r (room - length b)
+      end
+  end.
+(* list slots 0 .. max_items-1 when result number `off` is the first one shown *)
+Definition mrows_area (c : cfg) (m : mrows) (v : view) (off : nat) : list row :=
+  area_from c m v off (skipn off (v_matches v)) (max_items c).
+
+Definition area_mismatches (c : cfg) (scr : list row) (a : list row) : nat :=
+  length (filter (fun i => negb (row_eqb (row_at scr (list_row c i)) (nth i a []))) (seq 0 (max_items c))).
+(* clause 6: the list area shows, for some scroll offset, exactly the rows of the items from that offset on —
+   every continuation row shows its item's text and nothing else.  Answer: [] or [6; best offset; rows that differ there] *)
+Fixpoint best_offset (c : cfg) (m : mrows) (v : view) (scr : list row) (offs : list nat) (best : nat * nat) : nat * nat :=
+  match offs with
+  | [] => best
+  | o :: r => let k := area_mismatches c scr (mrows_area c m v o) in
+              if k =? 0 then (o, 0) else best_offset c m v scr r (if k <? snd best then (o, k) else best)
+  end.
+Definition check_mrows (c : cfg) (m : mrows) (v : view) (scr : list row) : list Z :=
+  let '(o, k) := best_offset c m v scr (seq 0 (S (length (v_matches v)))) (0, S (max_items c)) in
+  if k =? 0 then [] else [6%Z; Z.of_nat o; Z.of_nat k].
